@@ -99,10 +99,15 @@ type TermStore struct {
 	n     int
 	Vars  []*Term // declared variables in creation order
 	byVar map[string]*Term
+	// fp mode: variables asserted finite, and whether the solver-discharged
+	// lemma "(a-b) cmp 0 <=> a cmp b for finite a,b" may be used as a rewrite
+	Finite     map[*Term]bool
+	FPSubLemma bool
+	LemmaUses  int
 }
 
 func NewTermStore() *TermStore {
-	return &TermStore{tab: map[string]*Term{}, byVar: map[string]*Term{}}
+	return &TermStore{tab: map[string]*Term{}, byVar: map[string]*Term{}, Finite: map[*Term]bool{}}
 }
 
 func (ts *TermStore) intern(key string, mk func() *Term) *Term {
@@ -661,6 +666,14 @@ func (ts *TermStore) FPCmp(op string, a, b *Term) *Term {
 			return ts.BoolC(x >= y)
 		case "fp.eq":
 			return ts.BoolC(x == y)
+		}
+	}
+	if ts.FPSubLemma && a.op == "fp.sub RNE" && b.isConst && b.fv == 0 && (op == "fp.eq" || op == "fp.lt" || op == "fp.gt") {
+		x, y := a.args[0], a.args[1]
+		fin := func(t *Term) bool { return ts.Finite[t] || (t.isConst && !math.IsNaN(t.fv) && !math.IsInf(t.fv, 0)) }
+		if fin(x) && fin(y) {
+			ts.LemmaUses++
+			return ts.FPCmp(op, x, y)
 		}
 	}
 	return ts.mk(SBool, op, a, b)
